@@ -34,6 +34,16 @@ MUTANTS = {
             ('lut-index-c', 'wave_sim.py', "            inputs ^= 4\n", "            inputs ^= 8\n"),
             ('assign-gpu-fall', 'wave_sim.py', "    elif value == 2:\n        c[c_loc, x] = TMIN\n        c[c_loc+1, x] = ttime", "    elif value == 2:\n        c[c_loc, x] = ttime\n        c[c_loc+1, x] = TMAX"),
             ('filter-when-first', 'wave_sim.py', "            if (z_cur == 0                            # it is the first edge in z_mem ...", "            if (False                                 # it is the first edge in z_mem ...")],
+    'C04': [('thresh-ge', 'wave_sim.py', "                or (current_t - previous_t) > thresh  # -OR- the generated hazard is wider than pulse threshold.", "                or (current_t - previous_t) >= thresh  # -OR- the generated hazard is wider than pulse threshold."),
+            ('drop-forced-emission', 'wave_sim.py', "                or next_t < current_t                 # -OR- the next edge on SAME input is EARLIER (need current edge to filter BOTH in next iteration) ...\n", ""),
+            ('abs-time-offset', 'wave_sim.py', "                    cbuf[z_mem + z_cur, sim] = current_t\n", "                    cbuf[z_mem + z_cur, sim] = current_t if current_t > 0 else current_t + current_t\n")],
+    'C05': [('or8-activity-mask', 'logic.py', "        out[..., 2, :] |= inp[..., 2, :] & (~any_unknown | any_one) & ~any_one", "        out[..., 2, :] |= inp[..., 2, :] & (~any_unknown | any_one) & ~any_one & ~inp[..., 0, :]"),
+            ('xor8-activity', 'logic.py', "        out[..., 2, :] |= inp[..., 2, :]\n    out[..., 0, :] |= any_unknown", "        out[..., 2, :] = inp[..., 2, :]\n    out[..., 0, :] |= any_unknown")],
+    'C13': [('nrise-off', 'wave_sim.py', "    nrise = max(0, (z_cur+1) // 2 - (cbuf[z_mem, sim] == TMIN))", "    nrise = max(0, (z_cur+1) // 2)"),
+            ('ovl-not-propagated', 'wave_sim.py', "    cbuf[z_mem + z_cur, sim] = TMAX_OVL if overflows > 0 else max(a, b, c, d)", "    cbuf[z_mem + z_cur, sim] = TMAX_OVL if overflows > 0 else TMAX"),
+            ('capture-le', 'wave_sim.py', "        if t < time:\n            val ^= 1\n        if t <= TMIN: continue\n        if s_sqrt2 > 0:\n            acc += m * (1 + math.erf((t - time) / s_sqrt2))\n        eat = min(eat, t)\n        lst = max(lst, t)\n        tog += 1\n    if s_sqrt2 > 0:\n        if m < 0:\n            acc += 1\n        if acc >= 0.99:\n            val = 1\n        elif acc > 0.01:\n            seed = (seed << 4) + (vector << 20) + c_loc", "        if t <= time:\n            val ^= 1\n        if t <= TMIN: continue\n        if s_sqrt2 > 0:\n            acc += m * (1 + math.erf((t - time) / s_sqrt2))\n        eat = min(eat, t)\n        lst = max(lst, t)\n        tog += 1\n    if s_sqrt2 > 0:\n        if m < 0:\n            acc += 1\n        if acc >= 0.99:\n            val = 1\n        elif acc > 0.01:\n            seed = (seed << 4) + (vector << 20) + c_loc"),
+            ('gpu-lst', 'wave_sim.py', "    s[5, y, vector] = lst", "    s[5, y, vector] = eat"),
+            ('acc-weights-swapped', 'wave_sim.py', "                abuf[a_loc, sim] += nrise*a_wr + nfall*a_wf", "                abuf[a_loc, sim] += nrise*a_wf + nfall*a_wr")],
 }
 
 
